@@ -8,14 +8,16 @@
      variant 2 garbage text     : wat -> error           wit-file -> error
      variant 3 WIT text         : wat -> error           wit-file -> 3000000+id
      variant 5 WIT package dir  : wit-dir -> 2000000+id
-     variant 6 other directory  : wit-dir -> error *)
+     variant 6 other directory  : wit-dir -> error
+     variant 7 WIT package dir vendoring a dependency : wit-dir -> 2000000+id
+   Multi-key lines (c18m, format in harness/src/bin/c18.rs): prints the observation of [resolve_all] *)
 open Model
 open Common
 
 let variant c = int_of_n c mod 10
 let o_wat c = match variant c with 0 -> Some c | 1 -> Some (n_of_int (1000000 + int_of_n c)) | _ -> None
 let o_file c = match variant c with 3 -> Some (n_of_int (3000000 + int_of_n c)) | _ -> None
-let o_dir c = match variant c with 5 -> Some (n_of_int (2000000 + int_of_n c)) | _ -> None
+let o_dir c = match variant c with 5 | 7 -> Some (n_of_int (2000000 + int_of_n c)) | _ -> None
 
 let text (s : n list) : string =
   String.concat "" (List.map (fun c -> let i = int_of_n c in
@@ -58,6 +60,41 @@ let handle = function
       let mf = resolve_one_fixed o_wat o_dir o_file wat fs cfg k in
       String.concat "\t" [show m; show s; dev; show_bool (key_wfb k);
                           detail m ^ "/" ^ detail s ^ "/" ^ detail mf; show mf]
+  | ["c18m"; wat; mode; root; ovs; nodes; keys] ->
+      let wat = (wat = "1") in
+      let ovs = List.map (fun e -> match String.index_opt e '=' with
+          | Some i -> (dec_str (String.sub e 0 i), dec_list (String.sub e (i + 1) (String.length e - i - 1)))
+          | None -> failwith "override") (split_nonempty '|' ovs) in
+      let cfg = { root = dec_list root; overrides = ovs; error_on_unknown = (mode = "1") } in
+      let nodes = List.map (fun e -> match String.split_on_char ':' e with
+          | [kind; kk; v; p] ->
+              let id = n_of_int (10 * int_of_string kk + int_of_string v) in
+              (dec_list p, (if kind = "D" then Dir id else File id))
+          | _ -> failwith "node") (split_nonempty '|' nodes) in
+      let fs = fs_of_list nodes in
+      let ks = List.map (fun e -> match String.index_opt e '~' with
+          | Some i -> let n = String.sub e 0 i and v = String.sub e (i + 1) (String.length e - i - 1) in
+                      { k_name = dec_str n; k_version = (if v = "none" then None else Some (dec_str v)) }
+          | None -> failwith "key") (split_nonempty '|' keys) in
+      let render outs =
+        if List.exists is_failure outs then
+          let i = List.length outs - 1 in
+          (match List.nth outs i with
+           | ErrUnknown -> Printf.sprintf "MULTI ERR UnknownPackage %d" i
+           | _ -> Printf.sprintf "MULTI ERR PackageResolutionFailure %d" i)
+        else
+          "MULTI OK " ^ String.concat ";" (List.map (function
+              | Loaded (_, p, b) -> Printf.sprintf "L:%d:%s" (int_of_n b) (show_path p)
+              | _ -> "S") outs) in
+      (* the model of the whole call *)
+      let obs = render (resolve_all o_wat o_dir o_file wat fs cfg ks) in
+      (* the property: every key answered as the documented table answers it alone, up to the first failing key *)
+      let rec alone = function
+        | [] -> []
+        | k :: r -> let o = spec o_wat o_dir o_file wat fs cfg k in if is_failure o then [o] else o :: alone r in
+      let sobs = render (alone ks) in
+      let wf = List.for_all key_wfb ks in
+      String.concat "\t" [obs; sobs; show_bool wf]
   | _ -> "BAD-LINE"
 
 let () = main handle
